@@ -7,7 +7,7 @@ Local Open Scope Z_scope.
 (* ---------------- bookkeeping preserved by AddSegment / RemoveSegment ---------------- *)
 
 (* valid_begin is set and at most x; valid_end is set, at most M, and no segment ends after it *)
-Definition tp_good (x M : Z) (s : tp_st) : Prop :=
+Definition tp_rgood (x M : Z) (s : tp_st) : Prop :=
   (exists vb, tp_vb s = Some vb /\ vb <= x) /\
   (exists ve, tp_ve s = Some ve /\ ve <= M /\ forall sg, In sg (tp_segs s) -> snd sg <= ve).
 
@@ -39,9 +39,9 @@ Proof.
   - apply in_app_or in Hin. destruct Hin as [Hin|[<-|[]]]; [specialize (Hl sg Hin); lia|cbn; lia].
 Qed.
 
-Lemma tp_add_good x M b e s : e <= M -> tp_good x M s -> tp_good x M (tp_add b e s).
+Lemma tp_add_rgood x M b e s : e <= M -> tp_rgood x M s -> tp_rgood x M (tp_add b e s).
 Proof.
-  intros He [(vb & Hvb & Hx) (ve & Hve & HM & Hs)]. unfold tp_add, tp_good. cbn [tp_vb tp_ve tp_segs].
+  intros He [(vb & Hvb & Hx) (ve & Hve & HM & Hs)]. unfold tp_add, tp_rgood. cbn [tp_vb tp_ve tp_segs].
   rewrite Hvb, Hve. cbn [tp_widen_b tp_widen_e]. split.
   - destruct (b <? vb) eqn:C; eexists; split; try reflexivity; lia.
   - exists (Z.max ve e). split; [destruct (ve <? e) eqn:C; f_equal; lia|]. split; [lia|].
@@ -58,9 +58,9 @@ Proof.
   destruct ((b <? se) && (if fx then se <=? e else se <? e)) eqn:C; lia.
 Qed.
 
-Lemma tp_remove_good x M fx b e s : e <= M -> tp_good x M s -> tp_good x M (tp_remove fx b e s).
+Lemma tp_remove_rgood x M fx b e s : e <= M -> tp_rgood x M s -> tp_rgood x M (tp_remove fx b e s).
 Proof.
-  intros He [(vb & Hvb & Hx) (ve & Hve & HM & Hs)]. unfold tp_remove, tp_good. cbn [tp_vb tp_ve tp_segs].
+  intros He [(vb & Hvb & Hx) (ve & Hve & HM & Hs)]. unfold tp_remove, tp_rgood. cbn [tp_vb tp_ve tp_segs].
   rewrite Hvb, Hve. cbn [tp_widen_b tp_widen_e]. split.
   - destruct (b <? vb) eqn:C; eexists; split; try reflexivity; lia.
   - exists (Z.max ve e). split; [destruct (ve <? e) eqn:C; f_equal; lia|]. split; [lia|].
@@ -68,27 +68,27 @@ Proof.
     apply tp_remove_one_ends in Hin. specialize (Hs sg0 Hin0). lia.
 Qed.
 
-Lemma tp_merge_good x M fx o inc : (forall sg, In sg o -> snd sg <= M) ->
-  forall s, tp_good x M s -> tp_good x M (tp_merge fx o inc s).
+Lemma tp_merge_rgood x M fx o inc : (forall sg, In sg o -> snd sg <= M) ->
+  forall s, tp_rgood x M s -> tp_rgood x M (tp_merge fx o inc s).
 Proof.
   unfold tp_merge. induction o as [|sg r IH]; intros Ho s H; [exact H|]. cbn [fold_left].
   apply IH; [intros sg' Hs; apply Ho; right; exact Hs|].
   assert (snd sg <= M) by (apply Ho; left; reflexivity).
-  destruct inc; [apply tp_add_good|apply tp_remove_good]; assumption.
+  destruct inc; [apply tp_add_rgood|apply tp_remove_rgood]; assumption.
 Qed.
 
-Lemma tp_merge_all_good x M fx os inc : (forall sg, In sg (concat os) -> snd sg <= M) ->
-  forall s, tp_good x M s -> tp_good x M (tp_merge_all fx os inc s).
+Lemma tp_merge_all_rgood x M fx os inc : (forall sg, In sg (concat os) -> snd sg <= M) ->
+  forall s, tp_rgood x M s -> tp_rgood x M (tp_merge_all fx os inc s).
 Proof.
   unfold tp_merge_all. induction os as [|o r IH]; intros Ho s H; [exact H|]. cbn [fold_left].
   apply IH; [intros sg Hs; apply Ho; cbn [concat]; apply in_or_app; right; exact Hs|].
-  apply tp_merge_good; [intros sg Hs; apply Ho; cbn [concat]; apply in_or_app; left; exact Hs|exact H].
+  apply tp_merge_rgood; [intros sg Hs; apply Ho; cbn [concat]; apply in_or_app; left; exact Hs|exact H].
 Qed.
 
 Lemma tp_purge_ve p s : tp_ve (tp_purge p s) = tp_ve s.
 Proof. unfold tp_purge. destruct (tp_vb s) as [v|]; [|reflexivity]. destruct (p <? v); reflexivity. Qed.
 
-Lemma tp_purge_good x M p s : p <= x -> tp_good x M s -> tp_good x M (tp_purge p s).
+Lemma tp_purge_rgood x M p s : p <= x -> tp_rgood x M s -> tp_rgood x M (tp_purge p s).
 Proof.
   intros Hp [(vb & Hvb & Hx) (ve & Hve & HM & Hs)]. unfold tp_purge. rewrite Hvb.
   destruct (p <? vb) eqn:C.
@@ -98,42 +98,42 @@ Proof.
 Qed.
 
 (* UpdateRegion as a whole: [s0] is the state the first RemoveSegment(begin, end) produces *)
-Lemma tp_update_region_good x M upd prefer incs excs b e clear s :
+Lemma tp_update_region_rgood x M upd prefer incs excs b e clear s :
   (negb clear && (e <? tp_ve_num s)) = false ->
   e <= M ->
   (forall sg, In sg (upd (tp_upd_begin b clear s) e) -> snd sg <= M) ->
   (forall sg, In sg (concat incs ++ concat excs) -> snd sg <= M) ->
-  tp_good x M (tp_remove true (tp_upd_begin b clear s) e
+  tp_rgood x M (tp_remove true (tp_upd_begin b clear s) e
                  (if clear then {| tp_segs := []; tp_vb := tp_vb s; tp_ve := tp_ve s |} else s)) ->
-  tp_good x M (tp_update_region true upd prefer incs excs b e clear s).
+  tp_rgood x M (tp_update_region true upd prefer incs excs b e clear s).
 Proof.
   intros Hn He Hown Hie H0. unfold tp_update_region. rewrite Hn. fold (tp_upd_begin b clear s).
   assert (forall sg, In sg (concat incs) -> snd sg <= M) as Hi by (intros sg Hs; apply Hie, in_or_app; left; exact Hs).
   assert (forall sg, In sg (concat excs) -> snd sg <= M) as Hx by (intros sg Hs; apply Hie, in_or_app; right; exact Hs).
-  assert (tp_good x M (fold_left (fun acc sg => tp_add (fst sg) (snd sg) acc) (upd (tp_upd_begin b clear s) e)
+  assert (tp_rgood x M (fold_left (fun acc sg => tp_add (fst sg) (snd sg) acc) (upd (tp_upd_begin b clear s) e)
                          (tp_remove true (tp_upd_begin b clear s) e
                             (if clear then {| tp_segs := []; tp_vb := tp_vb s; tp_ve := tp_ve s |} else s)))) as H2.
-  { exact (tp_merge_good x M true _ true Hown _ H0). }
-  destruct prefer; apply tp_merge_all_good; try assumption; apply tp_merge_all_good; assumption.
+  { exact (tp_merge_rgood x M true _ true Hown _ H0). }
+  destruct prefer; apply tp_merge_all_rgood; try assumption; apply tp_merge_all_rgood; assumption.
 Qed.
 
-Lemma tp_good_ve_num x M s : tp_good x M s -> tp_ve_num s <= M.
+Lemma tp_rgood_ve_num x M s : tp_rgood x M s -> tp_ve_num s <= M.
 Proof. intros [_ (ve & Hve & HM & _)]. unfold tp_ve_num. rewrite Hve. exact HM. Qed.
 
-Lemma tp_good_beyond x M s t : tp_good x M s -> tp_ve_num s <= t -> tp_inside_segs (tp_segs s) t = false.
+Lemma tp_rgood_beyond x M s t : tp_rgood x M s -> tp_ve_num s <= t -> tp_inside_segs (tp_segs s) t = false.
 Proof.
   intros [_ (ve & Hve & _ & Hs)] Ht. unfold tp_ve_num in Ht. rewrite Hve in Ht.
   unfold tp_inside_segs. apply Bool.not_true_is_false. intros H. apply existsb_exists in H.
   destruct H as (sg & Hin & H). specialize (Hs sg Hin). unfold tp_in_seg in H. lia.
 Qed.
 
-Lemma tp_good_weaken x M x' M' s : x <= x' -> tp_good x M s -> (tp_ve_num s <= M') -> tp_good x' M' s.
+Lemma tp_rgood_weaken x M x' M' s : x <= x' -> tp_rgood x M s -> (tp_ve_num s <= M') -> tp_rgood x' M' s.
 Proof.
   intros Hx [(vb & Hvb & Hb) (ve & Hve & HM & Hs)] HM'. unfold tp_ve_num in HM'. rewrite Hve in HM'.
   split; [exists vb; split; [assumption|lia]|exists ve; auto].
 Qed.
 
-Lemma tp_good_is_inside x M s t : tp_good x M s -> x <= t <= tp_ve_num s ->
+Lemma tp_rgood_is_inside x M s t : tp_rgood x M s -> x <= t <= tp_ve_num s ->
   tp_is_inside s t = tp_inside_segs (tp_segs s) t.
 Proof.
   intros [(vb & Hvb & Hb) (ve & Hve & _ & _)] Ht. unfold tp_ve_num in Ht. rewrite Hve in Ht.
@@ -162,6 +162,29 @@ Proof.
   f_equal. exact IH.
 Qed.
 
+(* the oracle check for one observed round is the statement of tp_rolling_updates at the probes *)
+Theorem tp_roll_answers_ok_sound prefer lo ve answers t o own i x :
+  tp_roll_answers_ok prefer lo ve answers = None ->
+  In (t, (o, own), (i, x)) answers -> lo <= t < ve -> o = tp_region_spec prefer own i x.
+Proof.
+  unfold tp_roll_answers_ok. intros H Hin Ht.
+  destruct (find _ answers) as [[[t' ?] ?]|] eqn:F; [discriminate|].
+  pose proof (find_none _ _ F _ Hin) as Hf. cbn in Hf.
+  assert (((lo <=? t) && (t <? ve)) = true) as Hw by lia. rewrite Hw in Hf. cbn [andb] in Hf.
+  apply Bool.negb_false_iff in Hf. apply Bool.eqb_prop in Hf. exact Hf.
+Qed.
+
+Theorem tp_roll_answers_ok_complete prefer lo ve answers :
+  (forall t o own i x, In (t, (o, own), (i, x)) answers -> lo <= t < ve -> o = tp_region_spec prefer own i x) ->
+  tp_roll_answers_ok prefer lo ve answers = None.
+Proof.
+  intros H. unfold tp_roll_answers_ok.
+  destruct (find _ answers) as [[[t [o own]] [i x]]|] eqn:F; [|reflexivity].
+  apply find_some in F. destruct F as [Hin Hf].
+  apply andb_prop in Hf. destruct Hf as [Hw Hne].
+  rewrite (H t o own i x Hin ltac:(lia)) in Hne. rewrite Bool.eqb_reflx in Hne. discriminate.
+Qed.
+
 Section Rolling.
 Variable ownP : Z -> bool.
 Variable upd : Z -> Z -> list tp_seg.
@@ -177,11 +200,11 @@ Hypothesis Uends : forall b e sg, In sg (upd b e) -> snd sg <= hz e.
 (* the freshly computed stretch: from the region's begin to the new valid_end *)
 Lemma tp_region_new incs excs b e clear s x :
   (clear = true -> s = tp_empty /\ b <= x) ->
-  (clear = false -> b = tp_ve_num s /\ tp_good x b s) ->
+  (clear = false -> b = tp_ve_num s /\ tp_rgood x b s) ->
   b <= e ->
   (forall sg, In sg (concat incs ++ concat excs) -> fst sg <= hz e) ->
   (forall M, hz e <= M -> (forall sg, In sg (concat incs ++ concat excs) -> snd sg <= M) ->
-             tp_good x M (tp_update_region true upd prefer incs excs b e clear s)) /\
+             tp_rgood x M (tp_update_region true upd prefer incs excs b e clear s)) /\
   forall t, b <= t < tp_ve_num (tp_update_region true upd prefer incs excs b e clear s) ->
     tp_inside_segs (tp_segs (tp_update_region true upd prefer incs excs b e clear s)) t =
     tp_region_spec prefer (ownP t) (tp_inside_any incs t) (tp_inside_any excs t).
@@ -193,22 +216,22 @@ Proof.
   { destruct clear; [reflexivity|]. destruct (Hc0 eq_refl) as [Hb _]. cbn. lia. }
   assert (clear = false -> tp_ve_num s <= e) as Hwin.
   { intros Hc. destruct (Hc0 Hc) as [Hb _]. lia. }
-  assert (forall M, hz e <= M -> (forall sg, In sg (concat incs ++ concat excs) -> snd sg <= M) -> tp_good x M post) as Hgood.
-  { intros M HM Hie. pose proof (Uhz e) as Hhz. subst post. apply tp_update_region_good; try assumption; try lia.
+  assert (forall M, hz e <= M -> (forall sg, In sg (concat incs ++ concat excs) -> snd sg <= M) -> tp_rgood x M post) as Hgood.
+  { intros M HM Hie. pose proof (Uhz e) as Hhz. subst post. apply tp_update_region_rgood; try assumption; try lia.
     - rewrite Hb'. intros sg Hs. specialize (Uends b e sg Hs). lia.
     - rewrite Hb'. destruct clear.
       + destruct (Hc1 eq_refl) as [-> Hbx]. cbn. split; cbn [tp_vb tp_ve tp_segs].
         * exists b. split; [reflexivity|exact Hbx].
         * exists e. split; [reflexivity|]. split; [lia|]. intros sg [].
-      + destruct (Hc0 eq_refl) as [Hb Hg]. apply tp_remove_good; [lia|].
-        apply (tp_good_weaken x b x M s (Z.le_refl x) Hg). lia. }
+      + destruct (Hc0 eq_refl) as [Hb Hg]. apply tp_remove_rgood; [lia|].
+        apply (tp_rgood_weaken x b x M s (Z.le_refl x) Hg). lia. }
   split; [exact Hgood|].
   intros t Ht. subst post. rewrite tp_update_region_spec_b by exact Hwin.
   unfold tp_own_after. rewrite Hb'.
   assert (((if clear then false else tp_inside_segs (tp_segs s) t) && negb (tp_in_range b e t)) = false) as ->.
   { destruct clear; [reflexivity|]. destruct (Hc0 eq_refl) as [Hb Hg].
     destruct (tp_in_range b e t) eqn:C; [apply andb_false_r|].
-    rewrite (tp_good_beyond x b s t Hg); [reflexivity|]. unfold tp_in_range in C. lia. }
+    rewrite (tp_rgood_beyond x b s t Hg); [reflexivity|]. unfold tp_in_range in C. lia. }
   cbn [orb].
   destruct (Z.lt_ge_cases t (hz e)) as [Hlt|Hge].
   - rewrite Ucomplete by lia. reflexivity.
@@ -228,7 +251,7 @@ Proof.
       { intros sg Hin. destruct (Z.le_gt_cases (snd sg) t) as [H|H]; [exact H|].
         assert (existsb (fun sg => t <? snd sg) (concat incs ++ concat excs) = true); [|congruence].
         apply existsb_exists. exists sg. split; [exact Hin|lia]. }
-      pose proof (tp_good_ve_num x t _ (Hgood t Hge Hall)). lia.
+      pose proof (tp_rgood_ve_num x t _ (Hgood t Hge Hall)). lia.
 Qed.
 
 (* ---------------- the invariant ---------------- *)
@@ -237,7 +260,7 @@ Definition tp_roll_inv (n0 : Z) (prev : tp_rround) (acc : tp_roll_acc) : Prop :=
   let s := fst acc in
   let rl := snd acc in
   let lo := Z.max n0 (tp_rr_now prev - 3600) in
-  tp_good lo (tp_ve_num s) s /\
+  tp_rgood lo (tp_ve_num s) s /\
   (forall t, lo <= t < tp_ve_num s ->
      tp_inside_segs (tp_segs s) t =
      tp_region_spec prefer (ownP t) (tp_inside_any (tp_rr_incs rl) t) (tp_inside_any (tp_rr_excs rl) t)) /\
@@ -245,8 +268,8 @@ Definition tp_roll_inv (n0 : Z) (prev : tp_rround) (acc : tp_roll_acc) : Prop :=
      (tp_inside_any (tp_rr_incs rl) t = true -> tp_inside_any (tp_rr_incs prev) t = true) /\
      (tp_inside_any (tp_rr_excs rl) t = true -> tp_inside_any (tp_rr_excs prev) t = true)).
 
-Lemma tp_good_self x M s : tp_good x M s -> tp_good x (tp_ve_num s) s.
-Proof. intros H. apply (tp_good_weaken x M x (tp_ve_num s) s (Z.le_refl x) H). lia. Qed.
+Lemma tp_rgood_self x M s : tp_rgood x M s -> tp_rgood x (tp_ve_num s) s.
+Proof. intros H. apply (tp_rgood_weaken x M x (tp_ve_num s) s (Z.le_refl x) H). lia. Qed.
 
 Lemma tp_max_end_bound (l : list tp_seg) : exists M, forall sg, In sg l -> snd sg <= M.
 Proof.
@@ -266,7 +289,7 @@ Proof.
   - exact Hok.
   - fold (tp_roll_start upd prefer r0) in Hg, Hsp. split; [|split].
     + destruct (tp_max_end_bound (concat (tp_rr_incs r0) ++ concat (tp_rr_excs r0))) as [M0 HM0].
-      apply (tp_good_self n0 (Z.max (hz (n0 + 86400)) M0)). apply Hg; [lia|].
+      apply (tp_rgood_self n0 (Z.max (hz (n0 + 86400)) M0)). apply Hg; [lia|].
       intros sg Hin. specialize (HM0 sg Hin). lia.
     + exact Hsp.
     + intros t _. split; auto.
@@ -285,8 +308,8 @@ Proof.
   assert (p <= lo') as Hp by (subst lo'; lia).
   set (s1 := tp_purge p s).
   assert (tp_ve_num s1 = tp_ve_num s) as Hve1 by (unfold tp_ve_num, s1; rewrite tp_purge_ve; reflexivity).
-  assert (tp_good lo' (tp_ve_num s1) s1) as Hg1.
-  { rewrite Hve1. apply tp_purge_good; [exact Hp|]. apply (tp_good_weaken lo (tp_ve_num s) lo' (tp_ve_num s) s Hlo Hg). lia. }
+  assert (tp_rgood lo' (tp_ve_num s1) s1) as Hg1.
+  { rewrite Hve1. apply tp_purge_rgood; [exact Hp|]. apply (tp_rgood_weaken lo (tp_ve_num s) lo' (tp_ve_num s) s Hlo Hg). lia. }
   assert (forall t, p <= t -> tp_inside_segs (tp_segs s1) t = tp_inside_segs (tp_segs s) t) as Hpurge.
   { intros t Ht. apply tp_purge_spec. exact Ht. }
   unfold tp_roll_round. fold p. fold s1.
@@ -308,7 +331,7 @@ Proof.
     + set (post := tp_update_region true upd prefer (tp_rr_incs r) (tp_rr_excs r) b e false s1) in *.
       split; [|split].
       * destruct (tp_max_end_bound (concat (tp_rr_incs r) ++ concat (tp_rr_excs r))) as [M0 HM0].
-        apply (tp_good_self lo' (Z.max (hz e) M0)). apply Hgood; [lia|]. intros sg Hin. specialize (HM0 sg Hin). lia.
+        apply (tp_rgood_self lo' (Z.max (hz e) M0)). apply Hgood; [lia|]. intros sg Hin. specialize (HM0 sg Hin). lia.
       * intros t Ht. destruct (Z.lt_ge_cases t b) as [Hlt|Hge]; [|apply Hnew; lia].
         (* the part computed earlier: every segment of the referenced periods is merged again *)
         subst post. rewrite tp_update_region_spec_b by (intros _; subst b e; lia).
@@ -355,7 +378,7 @@ Proof.
   intros Hok Henv s rl t Ht.
   pose proof (tp_roll_inv_fold (tp_rr_now r0) rs r0 _ (tp_roll_inv_start r0 Hok) Henv) as (Hg & Hsp & _).
   fold (tp_roll upd prefer r0 rs) in Hg, Hsp. fold s in Hg, Hsp. fold rl in Hsp.
-  rewrite (tp_good_is_inside _ _ s t Hg) by lia. apply Hsp. exact Ht.
+  rewrite (tp_rgood_is_inside _ _ s t Hg) by lia. apply Hsp. exact Ht.
 Qed.
 
 (* the view is up to date whenever the last round recomputed: valid_end had not run ahead of now + 24 h *)
@@ -367,27 +390,27 @@ Proof.
   fold (tp_roll upd prefer r0 rs). rewrite H. reflexivity.
 Qed.
 
-End Rolling.
-
-(* the oracle check for one observed round is the statement of tp_rolling_updates at the probes *)
-Theorem tp_roll_answers_ok_sound prefer lo ve answers t o own i x :
-  tp_roll_answers_ok prefer lo ve answers = None ->
-  In (t, (o, own), (i, x)) answers -> lo <= t < ve -> o = tp_region_spec prefer own i x.
+(* the oracle check of one round (tp_roll_answers_ok over the probes, with the observed IsInside bits) accepts what
+   the model computes *)
+Theorem tp_roll_oracle_accepts_model r0 rs probes :
+  tp_round_ok hz r0 -> tp_env_ok hz r0 rs ->
+  let s := fst (tp_roll upd prefer r0 rs) in
+  let rl := snd (tp_roll upd prefer r0 rs) in
+  tp_roll_answers_ok prefer (Z.max (tp_rr_now r0) (tp_rr_now (last rs r0) - 3600)) (tp_ve_num s)
+    (map (fun t => (t, (tp_is_inside s t, ownP t),
+                    (tp_inside_any (tp_rr_incs rl) t, tp_inside_any (tp_rr_excs rl) t))) probes) = None.
 Proof.
-  unfold tp_roll_answers_ok. intros H Hin Ht.
-  destruct (find _ answers) as [[[t' ?] ?]|] eqn:F; [discriminate|].
-  pose proof (find_none _ _ F _ Hin) as Hf. cbn in Hf.
-  assert (((lo <=? t) && (t <? ve)) = true) as Hw by lia. rewrite Hw in Hf. cbn [andb] in Hf.
-  apply Bool.negb_false_iff in Hf. apply Bool.eqb_prop in Hf. exact Hf.
+  intros Hok Henv s rl. apply tp_roll_answers_ok_complete.
+  intros t o own i x Hin Ht. apply in_map_iff in Hin. destruct Hin as (t' & Heq & _). inversion Heq; subst.
+  apply (tp_rolling_updates r0 rs Hok Henv). exact Ht.
 Qed.
 
-Theorem tp_roll_answers_ok_complete prefer lo ve answers :
-  (forall t o own i x, In (t, (o, own), (i, x)) answers -> lo <= t < ve -> o = tp_region_spec prefer own i x) ->
-  tp_roll_answers_ok prefer lo ve answers = None.
+End Rolling.
+
+
+Theorem tp_roll_answers_rejects_wrong prefer lo ve answers t o own i x :
+  In (t, (o, own), (i, x)) answers -> lo <= t < ve -> o <> tp_region_spec prefer own i x ->
+  tp_roll_answers_ok prefer lo ve answers <> None.
 Proof.
-  intros H. unfold tp_roll_answers_ok.
-  destruct (find _ answers) as [[[t [o own]] [i x]]|] eqn:F; [|reflexivity].
-  apply find_some in F. destruct F as [Hin Hf].
-  apply andb_prop in Hf. destruct Hf as [Hw Hne].
-  rewrite (H t o own i x Hin ltac:(lia)) in Hne. rewrite Bool.eqb_reflx in Hne. discriminate.
+  intros Hin Ht Hne H. apply Hne. exact (tp_roll_answers_ok_sound prefer lo ve answers t o own i x H Hin Ht).
 Qed.
